@@ -238,13 +238,34 @@ func TestVerifC19(t *testing.T) {
 	}
 
 	item := 0
+	// ---- fine granularity: every lock acquisition of a request is a scheduling
+	// point (not only storage operations).  Two requests on a 1-use token, one
+	// preemption anywhere (thorough: two): covers check-then-act windows that
+	// contain no storage operation because the entry is served from the cache.
+	{
+		img, tok := c19Image(t, 1)
+		fb := 1
+		if vout.Thorough() {
+			fb = 2
+		}
+		for _, kinds := range multisets([]string{"read", "write", "lease", "lookup", "denied"}, 2) {
+			params := map[string]interface{}{"n": 1, "kinds": kinds, "fine": true}
+			name := fmt.Sprintf("fine:n=1:%s", strings.Join(kinds, "+"))
+			exploreScenario(res, "c19", name, params, c19Body(t, img, tok, 1, kinds), fb, true, &item)
+		}
+		res.Bound("fine_mode_preemption_bound", fb)
+	}
 	for n := 1; n <= maxN; n++ {
 		img, tok := c19Image(t, n)
 		for m := n + 1; m <= n+1; m++ {
 			for _, kinds := range multisets(c19Kinds, m) {
 				params := map[string]interface{}{"n": n, "kinds": kinds}
 				name := fmt.Sprintf("n=%d:%s", n, strings.Join(kinds, "+"))
-				ex := exploreScenario(res, "c19", name, params, c19Body(t, img, tok, n, kinds), bound, false, &item)
+				b := bound
+				if m >= 3 && !vout.Thorough() {
+					b = 1 // quick tier: three concurrent requests with one preemption, two requests with two
+				}
+				ex := exploreScenario(res, "c19", name, params, c19Body(t, img, tok, n, kinds), b, false, &item)
 				if ex > 0 && item%7 == 0 {
 					res.Sample(map[string]interface{}{"scenario": name, "executions_in_this_shard": ex})
 				}
